@@ -15,6 +15,19 @@ import itertools
 from .. import common
 from ..sexp import Sym, line as sx, loads
 
+META = dict(
+    text="Lean theorems (PPProofs/Props/C14.lean) prove for ALL strings and all loc<=len that col, lineno and line "
+         "describe one and the same line (unique line start, 1-based offset, newline count, line text), and that "
+         "expandtabs output is tab-free and idempotent; the Lean model is a statement-by-statement transcription of "
+         "util.col/lineno/line and is tied to the code by an exhaustive small-alphabet + random differential run on "
+         "every check. Parser-reported locations (actions, scan_string, Located, original_text_for, exceptions) are "
+         "partial: decided by slice-identity oracles on the real code and by the parse-model correspondence.",
+    note="Trusted: Lean kernel; axioms propext/Classical.choice/Quot.sound; the LineCol transcription (checked "
+         "differentially); CPython str.rfind/find/count/expandtabs. Parser location clauses are oracle-checked only.",
+    technique="Lean 4 proof over a transcribed model + differential correspondence with util.py",
+    design="§5 C14",
+)
+
 THEOREMS = [
     "PP.LineCol.C14_linecol_consistent",
     "PP.LineCol.IsLineStart.unique",
